@@ -44,6 +44,9 @@ def run(chk, tier):
         c17.accumulation(chk, prog, prog.config)
         c17.phantom(chk, prog, prog.config)
         c18.constructors(chk, prog, prog.config)
+        # the declaration is observed through the registry: the conversion keeps docs, names and order in every configuration
+        from . import c02
+        c02.check_config(chk, prog, prog.config)
     chk.trusted += ["rustc passes the declaration's tokens to the derive unchanged", "syn (both in the derive and in the mirror)"]
 
 
